@@ -7,7 +7,9 @@ proved per node type), hence so do the results of the tree search (`lemma_walk_e
 the same positions of the search result are flagged (`lemma_c17_same_positions_flagged`). What links this to re-layouts is an
 ASSUMPTION on the parser (the tree shape depends on the token sequence only; comments are not tokens), which -- like code-like text
 in comments and strings, and like the detectors outside det_expr's hits-form -- is the bounded check's business:
-native `c17` compares the token indices flagged on the one-token-per-line layout with every other token-preserving layout."""
+native `c17` compares the token indices flagged on the one-token-per-line layout with every other token-preserving layout;
+native `c17-pragma` compares, for all 30 detectors, a text whose pragma statements carry comments (the parser keeps those in the
+pragma value) with the same text without them."""
 from .. import driver as D
 from . import bounded
 
@@ -32,5 +34,11 @@ def run(tier, seed):
         return vd.finish({"level": "exploration", "coverage": {"evaluations": 1, "distinct_nontrivial": 2, "rule": "native harness did not build", "samples": ["-"]}})
     nat = D.run_native(binary, "c17", tier, seed)
     D.combine(vd, failed, nat, key_to_functions=key_to_functions)
+    # comments INSIDE a pragma statement (the parser keeps them in the pragma value: the one place where the analysis sees comment text)
+    npr = D.run_native(binary, "c17-pragma", tier, seed)
+    bounded.add_native_violations(vd, npr, "a comment inside a pragma statement does not change any detector's findings")
     ev = bounded.evidence_from_native(nat, [])
+    ev["coverage"]["evaluations"] += int(npr.get("evaluations", 0))
+    ev["coverage"]["distinct_nontrivial"] += int(npr.get("distinct_nontrivial", 0))
+    ev["coverage"]["pragma_comment_check"] = {k: npr.get(k) for k in ("evaluations", "distinct_nontrivial", "rule", "bound", "wall_s", "cmd")}
     return vd.finish(bounded.mixed_evidence(ev, covs, BOUNDED_PART, TRUST, None, None, vd))
